@@ -85,11 +85,31 @@ func corruptFile(w *World, op *Op) {
 		// keeps to the kinds gopki refuses at import (unknown curve, scalar >= group order, no curve,
 		// other inner version), so that the artifact simply has no usable key any more
 		var der []byte
-		kind := r.Intn(7)
+		kind := r.Intn(12)
 		if op.Arg == "unparsable-key" {
 			kind = Pick(r, []int{1, 2, 5, 6})
 		}
+		keyType := "PRIVATE KEY"
 		switch kind {
+		case 7: // OpenSSL's traditional EC format (SEC1) under its own label
+			keyType = "EC PRIVATE KEY"
+			der = derSeq(derSmallInt(1), derOctets(append([]byte{1}, r.Bytes(31)...)), derTLV(0xa0, derOIDBytes(curveOIDByName["P-256"])))
+		case 8: // OpenSSL's traditional RSA format (PKCS#1) under its own label
+			keyType = "RSA PRIVATE KEY"
+			one := derSmallInt(1)
+			der = derSeq(derSmallInt(0), derSmallInt(3233), derSmallInt(17), derSmallInt(413), derSmallInt(61), derSmallInt(53), one, one, one)
+		case 9: // SEC1 or PKCS#1 content under the PKCS#8 label (a file renamed or pasted together by hand)
+			if r.Bool() {
+				der = derSeq(derSmallInt(1), derOctets(append([]byte{1}, r.Bytes(31)...)), derTLV(0xa0, derOIDBytes(curveOIDByName["P-384"])))
+			} else {
+				one := derSmallInt(1)
+				der = derSeq(derSmallInt(0), derSmallInt(3233), derSmallInt(17), derSmallInt(413), derSmallInt(61), derSmallInt(53), one, one, one)
+			}
+		case 10: // Ed25519 / X25519 in PKCS#8, as openssl genpkey writes them
+			der = derSeq(derSmallInt(0), derSeq(derOIDBytes(Pick(r, []string{"1.3.101.112", "1.3.101.110"}))), derOctets(derOctets(r.Bytes(32))))
+		case 11: // password-protected PKCS#8 (label contains "PRIVATE KEY")
+			keyType = "ENCRYPTED PRIVATE KEY"
+			der = derSeq(derSeq(derOIDBytes("1.2.840.113549.1.5.13"), derSeq(derSeq(derOIDBytes("1.2.840.113549.1.5.12"), derSeq(derOctets(r.Bytes(8)), derSmallInt(2048))), derSeq(derOIDBytes("2.16.840.1.101.3.4.1.42"), derOctets(r.Bytes(16))))), derOctets(r.Bytes(r.Range(16, 160))))
 		case 5: // EC key on a curve gopki does not know (secp256k1), as openssl pkcs8 -topk8 writes it
 			sc := append([]byte{1}, r.Bytes(31)...)
 			der = derSeq(derSmallInt(0), derSeq(derOIDBytes(oidECPub), derOIDBytes("1.3.132.0.10")), derOctets(derSeq(derSmallInt(1), derOctets(sc), derTLV(0xa0, derOIDBytes("1.3.132.0.10")))))
@@ -108,7 +128,7 @@ func corruptFile(w *World, op *Op) {
 		default: // EC scalar empty
 			der = derSeq(derSmallInt(0), derSeq(derOIDBytes(oidECPub), derOIDBytes(curveOIDByName["P-521"])), derOctets(derSeq(derSmallInt(1), derOctets(nil))))
 		}
-		out = append(cutBlocks(out, isKeyType), pemEncode("PRIVATE KEY", der)...)
+		out = append(cutBlocks(out, isKeyType), pemEncode(keyType, der)...)
 	}
 	w.FS.Put(op.Path, out)
 }
